@@ -267,8 +267,11 @@ func c19Gen(tier string, emit func(any)) {
 										}
 									}
 								}
-								for _, mode := range []string{"api", "cli-p", "cli-stdin"} {
+								for _, mode := range []string{"api", "cli-p", "cli-stdin", "cli-p2", "cli-P2"} {
 									if mode != "api" && indent != 0 {
+										continue
+									}
+									if (mode == "cli-p2" || mode == "cli-P2") && (len(pre)+len(mp) > 1 || named) {
 										continue
 									}
 									name := "p.patch"
@@ -363,6 +366,21 @@ func c19Run(env *core.Env, ci any) core.Outcome {
 			args = []string{"."}
 			stdin = c.Patch
 			shown = "stdin"
+		}
+		if c.Mode == "cli-p2" || c.Mode == "cli-P2" {
+			// the faulty patch is not the first one that is loaded
+			good := filepath.Join(root, "p", "0good.patch")
+			if err := os.WriteFile(good, []byte("# fine\n@@\nvar x expression\n@@\n-nomatch(x)\n+nomatch2(x)\n\n@@\n@@\n-a1()\n+a2()\n"), 0o644); err != nil {
+				panic(err)
+			}
+			args = []string{"-p", good, "-p", pfile, "."}
+			if c.Mode == "cli-P2" {
+				list := filepath.Join(root, "p", "list.txt")
+				if err := os.WriteFile(list, []byte(good+"\n"+pfile+"\n"), 0o644); err != nil {
+					panic(err)
+				}
+				args = []string{"-P", list, "."}
+			}
 		}
 		run := func(real bool) core.Outcome {
 			var r drive.Result
